@@ -54,7 +54,7 @@ func diskVsModel(l Layout, b []byte, m *Model, where string) []Finding {
 	return nil
 }
 
-func runC05History(c HistCase, ev *Evid, tail *F64) (fs []Finding) {
+func runC05History(c HistCase, ev *Evid, tail *F64, closedTail *F64) (fs []Finding) {
 	h, err := newHistRunner("C05", c.L, c.Now)
 	if err != nil {
 		return []Finding{{Property: "C05", Key: "create-error", Detail: fmt.Sprintf("Create(%s): %v", c.L, err)}}
@@ -228,6 +228,33 @@ func runC05History(c HistCase, ev *Evid, tail *F64) (fs []Finding) {
 			cls = append(cls, "unwritable-tail:written")
 		}
 	}
+	if closedTail != nil && tail == nil && h.db != nil {
+		if err := h.db.Sync(); err != nil {
+			return []Finding{h.finding("sync-error", "final Sync: %v", err)}
+		}
+		db := h.db
+		db.Close()
+		h.db = nil
+		var uerr, serr error
+		uerr, pm := updateWT(db, -1, h.now, float64(*closedTail), h.now)
+		if uerr == nil && pm == "" {
+			pm = guard(func() { serr = db.Sync() })
+		}
+		switch {
+		case pm != "":
+			cls = append(cls, "closed-tail:panics") // (use after Close: not asserted)
+		case uerr != nil || serr != nil:
+			cls = append(cls, "closed-tail:refused")
+		default:
+			step0 := c.L.Archives[0].Step
+			iv := alignDown(h.now, step0)
+			r, err := readArchives(h.path, c.L, iv-step0, iv, h.now)
+			if err != nil || r[0].Err != nil || r[0].Nil || len(r[0].S.Values) < 1 || r[0].S.From != iv || !sameF(r[0].S.Values[0], float64(*closedTail)) {
+				return []Finding{h.finding("sync-succeeded-but-not-on-disk", "after Close the handle accepted an update (t=%d v=%s) and its Sync returned nil, but another handle does not read the value back", h.now, fstr(float64(*closedTail)))}
+			}
+			cls = append(cls, "closed-tail:written")
+		}
+	}
 	pages := (size + 4095) / 4096
 	nontrivial := syncsWithWrites >= 2 && pendingAtAbandon > 0
 	if pages > 1 {
@@ -285,9 +312,12 @@ type C05Case struct {
 	H    *HistCase `json:"history,omitempty"`
 	// UnwritableTail (history): after the history the file is made read-only and opened by an unprivileged
 	// user; if that Open succeeds, one more write + Sync follows (see runC05History)
-	UnwritableTail *F64        `json:"unwritable_tail,omitempty"`
-	CLI            *C05CLI     `json:"cli,omitempty"`
-	P              *C05Partial `json:"partial,omitempty"`
+	UnwritableTail *F64 `json:"unwritable_tail,omitempty"`
+	// ClosedTail (history): after the history the handle is closed and then used again: update + Sync. Whether
+	// those calls are refused is not asserted; IF both report success the value must be on disk
+	ClosedTail *F64        `json:"closed_tail,omitempty"`
+	CLI        *C05CLI     `json:"cli,omitempty"`
+	P          *C05Partial `json:"partial,omitempty"`
 }
 
 // C05Partial: updates that fail half way (a coarser archive's base interval is damaged on disk, so
@@ -420,7 +450,7 @@ func runC05(c C05Case, ev *Evid) []Finding {
 	if c.Kind == "partial" {
 		return runC05Partial(*c.P, ev)
 	}
-	return runC05History(*c.H, ev, c.UnwritableTail)
+	return runC05History(*c.H, ev, c.UnwritableTail, c.ClosedTail)
 }
 
 func runC05CLI(c C05CLI, ev *Evid) (fs []Finding) {
@@ -669,6 +699,7 @@ func TestC05(t *testing.T) {
 				return C05Case{Kind: "partial", P: &p}
 			}
 			o := defaultLayoutOpts()
+			o.HugePct = 6 // archives of 3000-10000 slots, so that one batch can exceed any internal chunk size
 			l := genLayout(t, o)
 			if rapid.IntRange(0, 2).Draw(t, "forceBig") > 0 {
 				// force one archive across several pages
@@ -688,11 +719,18 @@ func TestC05(t *testing.T) {
 					}
 				}
 			}
-			h := genHistory(t, l, histGenOpts{MaxOps: 40, FuturePct: 2, StaleNamed: true, Windows: 2, Reopen: true, Abandon: true, SyncHeavy: true})
+			ho := histGenOpts{MaxOps: 40, FuturePct: 2, StaleNamed: true, Windows: 2, Reopen: true, Abandon: true, SyncHeavy: true}
+			if l.Archives[0].Points > 2000 {
+				ho.MaxOps, ho.BigBatches = 8, true
+			}
+			h := genHistory(t, l, ho)
 			cc := C05Case{Kind: "history", H: &h}
 			if rapid.IntRange(0, 7).Draw(t, "unwritableTail") == 0 {
 				v := F64(genDyadic(t))
 				cc.UnwritableTail = &v
+			} else if rapid.IntRange(0, 7).Draw(t, "closedTail") == 0 {
+				v := F64(genDyadic(t) + 0.5)
+				cc.ClosedTail = &v
 			}
 			return cc
 		},
